@@ -135,6 +135,13 @@ func nativeReplay(pkgRel string, cases []ReplayCase, timeout time.Duration, isol
 				if timedOut {
 					res[c.ID] = ReplayOutcome{ID: c.ID, Outcome: "timeout"}
 					timedOut = false // only the first unfinished case was running
+				} else if k := strings.LastIndex(string(out), "ZZVERIF-ASSERT-FAIL "); k >= 0 && len(batch) == 1 {
+					// the assertion failed in a goroutine other than the test's: the process died
+					label := string(out)[k+len("ZZVERIF-ASSERT-FAIL "):]
+					if nl := strings.IndexByte(label, '\n'); nl >= 0 {
+						label = label[:nl]
+					}
+					res[c.ID] = ReplayOutcome{ID: c.ID, Outcome: "assert", Detail: strings.TrimSpace(label)}
 				} else {
 					res[c.ID] = ReplayOutcome{ID: c.ID, Outcome: "missing", Detail: lastLines(string(out), 15)}
 				}
